@@ -21,7 +21,7 @@ var (
 	logIDs   = []string{"wt", "whatap", "app-1"}
 	onames   = []string{"boot", "agent1", "my-app"}
 	prefixes = []string{"conn fail ", "conn fail:", "db timeout", "WA20301ABC", "disk full "} // exactly 10 bytes each: the limiter key of a message
-	idKeys   = []string{"WA101", "WA102", "db timeout", "WA20301ABC", "a"}                     // explicit ids of Printf/Println (two coincide with message prefixes)
+	idKeys   = []string{"WA101", "WA102", "db timeout", "WA20301ABC", "a"}                    // explicit ids of Printf/Println (two coincide with message prefixes)
 	badDates = []string{"2020010", "202001011", "snapshot", "2020010x", "20201399", "20200431", "20210229", "20200100", "20200001",
 		"+2020101", "19991399", "00000000", "2020 101", "abcdefgh", "١٢٣٤"}
 	litDates = []string{"19991231", "20000101", "20000102", "20991231", "21000101", "00010101", "99991231"}
@@ -95,7 +95,7 @@ type model struct {
 	gone      map[string]bool   // markers whose file was pruned
 
 	rotations, delTotal, keptTotal, suppressed, gated, ambiguous, accepted, hardPasses int
-	ntRetention                                                                      bool
+	ntRetention                                                                        bool
 }
 
 func (m *model) fileName(rotation bool, day int64) string {
@@ -621,7 +621,7 @@ func drawHist(t *rapid.T) HistCase {
 
 var specHist = pbt.Register(pbt.Spec[HistCase]{
 	Prop: "C17", Name: "logger-histories",
-	Rule: "histories of 3-45 actions on a logger without background goroutine in a fresh temp home under a virtual clock: log over all 12 logging methods (ids/10-byte message prefixes from 5-element alphabets), advance (ms, days, to midnight +-, configured interval +-), cycle, ApplyConfig(level, interval, keep-days, rotation; keys may be absent), SetLevel, plant (own dated files of any age incl. keep-days boundary, own-prefix files whose date part is not a date, undated own files, foreign look-alikes, directories); oracle = file-system + rate-limiter model checked after every cycle and at the end; non-trivial = at least one date rotation and one retention pass (rotation on, keep-days >= 1) that removes at least one file and keeps at least one file besides the current log file; distinct by action list",
+	Rule:  "histories of 3-45 actions on a logger without background goroutine in a fresh temp home under a virtual clock: log over all 12 logging methods (ids/10-byte message prefixes from 5-element alphabets), advance (ms, days, to midnight +-, configured interval +-), cycle, ApplyConfig(level, interval, keep-days, rotation; keys may be absent), SetLevel, plant (own dated files of any age incl. keep-days boundary, own-prefix files whose date part is not a date, undated own files, foreign look-alikes, directories); oracle = file-system + rate-limiter model checked after every cycle and at the end; non-trivial = at least one date rotation and one retention pass (rotation on, keep-days >= 1) that removes at least one file and keeps at least one file besides the current log file; distinct by action list",
 	Quick: 3000, Thorough: 120000,
 	Draw: drawHist,
 	Run:  runHist,
